@@ -608,6 +608,16 @@ pub fn gen_case(seed: u64, shard: u64, run: u64, t: &Tier) -> Case {
         sparse: knobs.chance(0.6),
     };
     let mut cell = gen::gen_robot(&mut w, &k);
+    if ctor == Ctor::Direct {
+        // assembled from public fields, the kinematics can be any `Kinematics`: a parallelogram
+        // linkage around the stack now and then
+        let mut pk = Rng::derive(seed, shard, run, "c11.parallelogram");
+        if pk.chance(0.25) {
+            let scaling = *pk.pick(&[1.0, 1.0, 0.5, -1.0]);
+            let (driven, coupled) = if pk.chance(0.7) { (1usize, 2usize) } else { *pk.pick(&[(2usize, 1usize), (1, 4), (3, 5)]) };
+            cell.parallelogram = Some((scaling, driven, coupled));
+        }
+    }
     cell.safety = match ctor {
         Ctor::New(first) => SafetySpec::touch(if first { Mode::First } else { Mode::All }),
         _ => gen::gen_safety(&mut w, cell.tool.is_some(), cell.base.is_some(), k.max_env, false, k.sparse),
